@@ -68,13 +68,16 @@ var keys = []keySpec{
 	{"GET", "/k/a", "", "/k/a"},
 	// an infix catch-all followed by a parameter: direct matches go through pooled sub-contexts
 	{"GET", "/in/*{c}/m/{p}", "", "/in/x/y/m/z"},
+	// the only route of a fixed verb: transactions may remove it with Truncate(PUT), which works on the per-method roots
+	{"PUT", "/t", "", "/t"},
 	{"POST", "/a", "", "/a"},
 	{"GET", "/a/{p}/c", "", "/a/zz/c"},
 	{"GET", "{s}.example.org/a/b", "s1.example.org", "/a/b"},
 }
 
-const nTxn = 11
+const nTxn = 12
 const infixKey = 10
+const putKey = 11
 
 type KOp struct {
 	Kind string `json:"kind"` // handle, update, delete
@@ -302,6 +305,15 @@ func run(p *Plan, count bool) error {
 								_, err = txn.Handle(k.Method, k.Pattern, served(op.Key, ver), fox.WithAnnotation(verKey, ver))
 							case "update":
 								_, err = txn.Update(k.Method, k.Pattern, served(op.Key, ver), fox.WithAnnotation(verKey, ver))
+							case "truncate":
+								// the key is the only route of its method: truncating the method is a delete of the key
+								if rte = txn.Route(k.Method, k.Pattern); rte == nil {
+									err = fox.ErrRouteNotFound
+								}
+								if terr := txn.Truncate(k.Method); terr != nil {
+									err = terr
+								}
+								op.Kind = "delete"
 							default:
 								rte, err = txn.Delete(k.Method, k.Pattern)
 							}
@@ -641,7 +653,11 @@ func genPlan(t *rapid.T) *Plan {
 			} else {
 				n := gen.IntR(t, 1, 3, "nops")
 				for j := 0; j < n; j++ {
-					st.Ops = append(st.Ops, KOp{Kind: gen.Pick(t, []string{"handle", "handle", "update", "delete"}, "kind"), Key: gen.IntR(t, 0, nTxn-1, "tkey")})
+					ko := KOp{Kind: gen.Pick(t, []string{"handle", "handle", "update", "delete"}, "kind"), Key: gen.IntR(t, 0, nTxn-1, "tkey")}
+					if ko.Key == putKey && ko.Kind == "delete" && gen.Chance(t, 2, 3, "truncate") {
+						ko.Kind = "truncate"
+					}
+					st.Ops = append(st.Ops, ko)
 				}
 				st.Abort = gen.Chance(t, 1, 6, "abort")
 				st.Peek = gen.Pick(t, []string{"", "", "", "iter", "snapshot"}, "peek")
